@@ -23,10 +23,14 @@ rm -f $WT/$DEMODIR/zz_seed_demo_test.go
 suite=$(cd $WT/v3 && go test -vet=off -count=1 ./... 2>&1 | grep -v "^ok\|no test files" | head -5 | tr '\n' ' ')
 git -C $WT checkout -q -- . 
 # run the check against the change in /repo
-git -C /repo apply $OUT/patch.diff
-chk=$(cd /verif && ./check $CK quick 2>&1 | grep -v "^INCONCLUSIVE\|^UNCONFIRMED\|^KNOWN" | cut -c1-400 | tail -6)
-git -C /repo checkout -- .
-caught=no; echo "$chk" | grep -q "^VIOLATION property=$CK" && caught=yes
+if [ -n "$SKIP_CHECK" ]; then
+  chk="(check not run yet)"; caught=pending
+else
+  git -C /repo apply $OUT/patch.diff
+  chk=$(cd /verif && ./check $CK quick 2>&1 | grep -v "^INCONCLUSIVE\|^UNCONFIRMED\|^KNOWN" | cut -c1-400 | tail -6)
+  git -C /repo checkout -- .
+  caught=no; echo "$chk" | grep -q "^VIOLATION property=$CK" && caught=yes
+fi
 python3 - "$ID" "$N" "$CK" "$clean_demo" "$build" "$seeded_demo" "$suite" "$caught" "$chk" <<'PY'
 import json,sys
 ID,N,CK,clean,build,seeded,suite,caught,chk=sys.argv[1:10]
